@@ -147,7 +147,7 @@ class Worker:
         if self.stage.get("leakcheck"): cmd.append("--leakcheck")
         if self.stage.get("isolate"): cmd.append("--isolate")
         if self.stage.get("wrapper") == "valgrind":
-            cmd = ["valgrind", "-q", "--error-exitcode=99", "--exit-on-first-error=yes", "--num-callers=20"] + cmd + ["--timeout", "900"]
+            cmd = ["valgrind", "-q", "--error-exitcode=99", "--exit-on-first-error=yes", "--num-callers=20", "--max-threads=8000"] + cmd + ["--timeout", "900"]
         env = stage_env(self.stage)
         self.fo = open(self.out, "ab"); self.fe = open(self.err, "ab")
         self.err_start = self.fe.tell()
